@@ -3,6 +3,7 @@ import PytezosModel.Client.OpForge
 /-! C06 line protocol.
 
     forge  <branch-hex> <n> { <kind> <m> { <name> <value> }^m }^n      →  hex | err
+    canon  <same as forge>                                              →  hex | err        (Spec.Op.writeGroup)
     decode <hex>                                                        →  <branch-hex> <n> {…same shape…} | err
     entrypoint <name-hex>                                               →  hex | err        (forge_entrypoint)
 
@@ -142,6 +143,16 @@ def handle (line : String) : String :=
       match readContents n ts with
       | some (cs, []) =>
         match Impl.OpForge.forgeGroup ⟨branch, cs⟩ with
+        | some bs => toHex bs
+        | none => "err"
+      | _ => "bad-op"
+    | _, _ => "bad-op"
+  | "canon" :: b :: n :: ts =>
+    match parseHex b, n.toNat? with
+    | some branch, some n =>
+      match readContents n ts with
+      | some (cs, []) =>
+        match Spec.Op.writeGroup ⟨branch, cs⟩ with
         | some bs => toHex bs
         | none => "err"
       | _ => "bad-op"
